@@ -69,3 +69,117 @@ Print Assumptions C09_sample_counts_on_grid.
 Example C09_ex : wf (GRepeat 3 1 12 2 (GEnv 2 0 8 2 (GCar 1))) = true /\
   finite_total (GRepeat 3 1 12 2 (GEnv 2 0 8 2 (GCar 1))) = Some 48.
 Proof. vm_compute. split; reflexivity. Qed.
+
+(* ==================================================================================================================
+   TRANSLATOR TIE (source -> Coq).  gen/StimIdxGen.v is REGENERATED on every run from the current psiaudio/stim.py by
+   translate/pystim2coq.py (hook in harness/C09.py); the regenerated constructor / queries / envelope ARE the model's. *)
+From PV Require Import Stim.SpecTie Stim.ProofsTie.
+
+(* GateFactory.__init__: total_samples = start_samples + duration_samples, offset = 0 *)
+Theorem C09_source_gate_init_tie : forall start dur, gen_gate_init start dur = gate_of start dur 0.
+Proof. exact gate_init_tie. Qed.
+Print Assumptions C09_source_gate_init_tie.
+
+(* n_samples_remaining / n_samples / is_complete of a gate equal the model's for every record satisfying
+   gate_inv (total_samples = start_samples + duration_samples), which __init__ establishes and next keeps *)
+Theorem C09_source_gate_queries_tie : forall st g' i, gate_inv st ->
+  let g := GGate (gate_start_samples st) (gate_duration_samples st) g' in
+  let s := SNode (gate_offset st) i in
+  remaining g s = Some (gen_gate_n_samples_remaining st) /\
+  n_samples g s = Some (gen_gate_n_samples st) /\
+  complete g s = gen_gate_is_complete st.
+Proof. exact gate_queries_tie. Qed.
+Print Assumptions C09_source_gate_queries_tie.
+
+Theorem C09_source_gate_inv_kept : forall start dur st n tok,
+  gate_inv (gen_gate_init start dur) /\ (gate_inv st -> gate_inv (fst (gen_gate_next st n tok))).
+Proof. exact gate_inv_kept. Qed.
+Print Assumptions C09_source_gate_inv_kept.
+
+(* EnvelopeFactory is a GateFactory: the same record and the same (inherited) queries *)
+Theorem C09_source_env_queries_tie : forall nid rise st g' i, gate_inv st ->
+  let g := GEnv nid (gate_start_samples st) (gate_duration_samples st) rise g' in
+  let s := SNode (gate_offset st) i in
+  remaining g s = Some (gen_gate_n_samples_remaining st) /\
+  n_samples g s = Some (gen_gate_n_samples st) /\
+  complete g s = gen_gate_is_complete st.
+Proof. exact env_queries_tie. Qed.
+Print Assumptions C09_source_env_queries_tie.
+
+Example C09_source_gate_inv_ex : gate_inv (fst (gen_gate_next (gen_gate_init 3 5) 4 [szero; szero; szero; szero])).
+Proof. exact gate_inv_ex. Qed.
+
+(* without the invariant the equality fails (a record with a stale total_samples) *)
+Theorem C09_source_gate_queries_tie_refuted : exists st g' i, ~ gate_inv st /\
+  remaining (GGate (gate_start_samples st) (gate_duration_samples st) g') (SNode (gate_offset st) i)
+  <> Some (gen_gate_n_samples_remaining st).
+Proof. exact gate_queries_tie_refuted. Qed.
+Print Assumptions C09_source_gate_queries_tie_refuted.
+
+(* FixedWaveform queries: the model speaks of `len`, the code of len(self.waveform); equal on the model's domain 0 <= len *)
+Theorem C09_source_fixed_queries_tie : forall wid len o, 0 <= len ->
+  let g := GFixed wid len in
+  let s := SLeaf o in
+  remaining g s = Some (gen_fixed_n_samples_remaining (fixed_of wid len o)) /\
+  n_samples g s = Some (gen_fixed_n_samples (fixed_of wid len o)) /\
+  complete g s = gen_fixed_is_complete (fixed_of wid len o).
+Proof. exact fixed_queries_tie. Qed.
+Print Assumptions C09_source_fixed_queries_tie.
+
+Theorem C09_source_fixed_queries_tie_refuted : exists wid len o, len < 0 /\
+  n_samples (GFixed wid len) (SLeaf o) <> Some (gen_fixed_n_samples (fixed_of wid len o)).
+Proof. exact fixed_queries_tie_refuted. Qed.
+Print Assumptions C09_source_fixed_queries_tie_refuted.
+
+(* RepeatFactory (inherits the queries of FixedWaveform; its state carries the array): unconditional *)
+Theorem C09_source_repeat_queries_tie : forall a b c d g' o w i,
+  let g := GRepeat a b c d g' in
+  let s := SRep o w i in
+  remaining g s = Some (gen_fixed_n_samples_remaining (fixed_arr w o)) /\
+  n_samples g s = Some (gen_fixed_n_samples (fixed_arr w o)) /\
+  complete g s = gen_fixed_is_complete (fixed_arr w o).
+Proof. exact repeat_queries_tie. Qed.
+Print Assumptions C09_source_repeat_queries_tie.
+
+(* C09_bookkeeping over the regenerated code: after ANY draw history over the regenerated next, the regenerated queries
+   report max(total - drawn, 0), drawn >= total, total *)
+Theorem C09_source_bookkeeping_gate : forall start dur g' cs i0 st1 i1 out,
+  src_gate_run g' (gen_gate_init start dur) i0 cs = Some (st1, i1, out) ->
+  gen_gate_n_samples_remaining st1 = Z.max (start + dur - sumZ cs) 0 /\
+  gen_gate_is_complete st1 = (start + dur <=? sumZ cs) /\
+  gen_gate_n_samples st1 = start + dur.
+Proof. exact source_bookkeeping_gate. Qed.
+Print Assumptions C09_source_bookkeeping_gate.
+
+Theorem C09_source_bookkeeping_env : forall nid rise start dur g' cs i0 st1 i1 out,
+  src_env_run nid rise g' (gen_gate_init start dur) i0 cs = Some (st1, i1, out) ->
+  gen_gate_n_samples_remaining st1 = Z.max (start + dur - sumZ cs) 0 /\
+  gen_gate_is_complete st1 = (start + dur <=? sumZ cs) /\
+  gen_gate_n_samples st1 = start + dur.
+Proof. exact source_bookkeeping_env. Qed.
+Print Assumptions C09_source_bookkeeping_env.
+
+Theorem C09_source_bookkeeping_fixed : forall w cs,
+  let st := fst (src_fixed_run (fixed_arr w 0) cs) in
+  gen_fixed_n_samples_remaining st = Z.max (zlen w - sumZ cs) 0 /\
+  gen_fixed_is_complete st = (zlen w <=? sumZ cs) /\
+  gen_fixed_n_samples st = zlen w.
+Proof. exact source_bookkeeping_fixed. Qed.
+Print Assumptions C09_source_bookkeeping_fixed.
+
+(* envelope(): samples='auto' is the whole stimulus; its shape; a too long rise is rejected *)
+Theorem C09_source_envelope_auto_tie : forall nid elb dur rise o,
+  gen_envelope nid elb dur rise o None = envelope_frag nid elb dur rise o (elb + dur).
+Proof. exact envelope_auto_tie. Qed.
+Print Assumptions C09_source_envelope_auto_tie.
+
+Theorem C09_source_envelope_shape : forall nid elb dur rise, 0 <= elb -> 0 <= rise -> 2 * rise <= dur ->
+  gen_envelope nid elb dur rise 0 None =
+  Some (zrepeat fzero elb ++ zrange (fun j => (2, nid, j)) 0 rise ++ zrepeat fone (dur - 2 * rise)
+        ++ zrange (fun j => (2, nid, j)) rise rise).
+Proof. exact source_envelope_shape. Qed.
+Print Assumptions C09_source_envelope_shape.
+
+Theorem C09_source_rise_rejected : forall nid elb dur rise o n, dur < 2 * rise -> gen_envelope nid elb dur rise o n = None.
+Proof. exact source_rise_rejected. Qed.
+Print Assumptions C09_source_rise_rejected.
